@@ -21,6 +21,11 @@ func (s *lazySubContext) GetKey(name string) string {
 	return s.sub.GetKey(name)
 }
 
+// A sub-context of the static-analysis probe is a probe
+func (s *lazySubContext) IsStaticProbe() bool {
+	return expressions.IsStaticProbe(s.sub)
+}
+
 func keyBuilderToFunction(stage *expressions.CompiledKeyBuilder) expressions.KeyBuilderFunction {
 	return func(args []expressions.KeyBuilderStage) (expressions.KeyBuilderStage, error) {
 		ctxPool := slicepool.NewObjectPoolEx(5, func() *lazySubContext {
